@@ -151,60 +151,3 @@ Proof.
 Qed.
 Print Assumptions conc_quiescent_stats.
 
-(* ================================ non-vacuity ================================ *)
-(* Two threads, alternating step by step, on a 4-tree allocator (TREE_FRAMES = 256; classes 0 and 1 with one slot
-   each; simple policy): thread 0 allocates (class 1) then frees frame 768 -- the block thread 1 obtained in the
-   meantime -- while thread 1 keeps allocating (class 0); `nop` (a put of a frame nobody holds) only lets running
-   calls finish.  All hypotheses of the theorems hold; the final state is quiescent, two blocks are held, and
-   (both by the theorem and by evaluation) validate() passes. *)
-Module SafeExample.
-  Import UpperConcClass.ClassExample.
-  Definition nop := UPut 1023 (rq 0 0 None).
-  Definition alt2 (n : nat) (a b : ucall) : list (nat * ucall) :=
-    flat_map (fun _ => [(0%nat, a); (1%nat, b)]) (seq 0 n).
-  Definition sch := alt2 14 cA cB ++ alt2 30 (UPut 768 (rq 0 0 (Some 0))) cB ++ alt2 40 nop nop.
-  Definition sF := urun g7 pol7 sch (uboot U0 [] 2).
-
-  Lemma wf7 : wf_geom g7. Proof. unfold wf_geom; cbn; lia. Qed.
-  Lemma inv0 : UpperInv g7 pol7 (ustate_new U0).
-  Proof. apply UpperPutProofs.upper_invb_sound; [apply PolicyFacts.pol_simple_facts|]. vm_compute. reflexivity. Qed.
-  Lemma held0 : HeldInit g7 (low U0) [].
-  Proof. change (low U0) with (free_all g7 1024) || replace (low U0) with (free_all g7 1024) by (vm_compute; reflexivity).
-         apply ConcInvInit.held_init_free_all. exact wf7. Qed.
-
-  Lemma valid_call c : In c [cA; cB; UPut 768 (rq 0 0 (Some 0)); nop] -> call_valid2 g7 U0 c.
-  Proof.
-    intros H. repeat (destruct H as [<-|H]); [| | | |destruct H]; (split; [|try exact I; vm_compute; reflexivity]);
-      cbn [call_valid]; intros l len E1 E2; vm_compute in E1, E2; inversion E1; inversion E2; subst; reflexivity.
-  Qed.
-  Lemma in_alt2 n a b t c : In (t, c) (alt2 n a b) -> c = a \/ c = b.
-  Proof.
-    unfold alt2. intros Hin. apply in_flat_map in Hin. destruct Hin as (k & _ & Hin). cbn [In] in Hin.
-    destruct Hin as [Hin|[Hin|[]]]; inversion Hin; subst; tauto.
-  Qed.
-  Lemma sched_ok : sched_valid g7 U0 sch.
-  Proof.
-    unfold sched_valid. apply Forall_forall. intros [t c] Hin. cbn [snd]. apply valid_call.
-    unfold sch in Hin. apply in_app_or in Hin. destruct Hin as [Hin|Hin]; [|apply in_app_or in Hin; destruct Hin as [Hin|Hin]];
-      apply in_alt2 in Hin; destruct Hin as [-> | ->]; cbn [In]; tauto.
-  Qed.
-
-  Example conc_upper_nonvacuous :
-    uquiescent sF /\ m2_held sF = [(768, 0%nat); (0, 0%nat)] /\ llfree_validate g7 (m2_up sF) = Ok tt.
-  Proof.
-    split; [|split; vm_compute; reflexivity].
-    intros x Hx. assert (E : m2_pool sF = [UIdle (Some (Ok (0, 0))); UIdle (Some (Ok (768, 0)))]) by (vm_compute; reflexivity).
-    rewrite E in Hx. destruct Hx as [<-|[<-|[]]]; eexists; reflexivity.
-  Qed.
-
-  (* the theorems applied to this run *)
-  Example conc_upper_instance :
-    (forall x, In x (upanicked sF) -> x = SExceedingRetries) /\ uheld_ok sF = true /\
-    UpperInv g7 pol7 (ustate_new (m2_up sF)) /\ llfree_validate g7 (m2_up sF) = Ok tt.
-  Proof.
-    destruct (PolicyFacts.pol_simple_facts 256) as (PR & _ & PT & _).
-    destruct (conc_upper_safe g7 pol7 U0 [] 2 sch wf7 PR PT inv0 held0 sched_ok) as (A & B & C).
-    split; [exact A|]. split; [exact B|]. split; [exact (C (proj1 conc_upper_nonvacuous))|].
-    exact (conc_quiescent_validate g7 pol7 U0 [] 2 sch wf7 PR PT inv0 held0 sched_ok (proj1 conc_upper_nonvacuous)).
-  Qed.
-End SafeExample.
